@@ -9,6 +9,8 @@ from harness import common as C
 from harness import fw
 from harness import c06_gen as G
 from harness import c06_sections as S
+from harness import c06_pairs as PR
+from harness import c06_scope as CS
 from harness import progen
 from harness import stmt_wire as SW
 
@@ -684,6 +686,7 @@ def part_scripts(ctx, dist, samples):
             for h in r["helpers"]:
                 dist["helper:" + h] += 1
     n_eval += check_library_and_functions(ctx, batch, dist, consts)
+    n_eval += check_scopes(ctx, [(src, r, c) for (src, r), c in zip(acc, comp)], dist, consts)
     dist["scripts:compiled"] = sum(1 for c in comp if c["compiled"])
     for k, v in kinds_seen.items():
         dist["items:" + k] = v
@@ -692,6 +695,159 @@ def part_scripts(ctx, dist, samples):
         samples.append({"script": min((s for s, _ in acc), key=len)})
     return n_eval, len(distinct), consts
 
+
+
+# ------------------------------------------------------------------ H. every statement shape, and every pair of them, in ONE block
+def _compile_many(srcs):
+    """-> [(transpile result, compile result or None)]"""
+    _, tr = transpile(srcs)
+    idx = [k for k, r in enumerate(tr) if r["ok"]]
+    comp = dict(zip(idx, fw.run_sketches([{"cpp": tr[k]["cpp"], "compile_only": True} for k in idx])))
+    return [(r, comp.get(k)) for k, r in enumerate(tr)]
+
+
+def part_pairs(ctx, dist, samples):
+    """c06_pairs: the whole statement catalog, twice, in one block of every kind of block (setup, loop, function body, every
+    arm of if/elif/else, for, while, try, except, nested) - every pair of statement shapes and every shape with itself
+    share one C++ scope.  Oracle: g++.  A failing sequence is reduced (ddmin) to a minimal one, which is the replay."""
+    rng = ctx.rng
+    thorough = ctx.tier == "thorough"
+    runs = []
+    for cx in PR.CONTEXTS:
+        runs.append((cx, PR.sequence(rng, cx, 2)))
+    if thorough:
+        for rep in range(6):
+            for cx in PR.CONTEXTS:
+                seq = PR.sequence(rng, cx, 3)
+                rng.shuffle(seq)
+                runs.append((cx, seq[:rng.randint(20, len(seq))]))
+    srcs = [PR.wrap(cx, [l for _, l in seq]) for cx, seq in runs]
+    n_eval = 0
+    todo = []
+    for (cx, seq), src in zip(runs, srcs):
+        sh = G.shapes_of(src)
+        if sh:
+            ctx.disagree("catalog sequence is outside the executable guard (generator bug)", {"context": cx, "shapes": sorted(sh)}, "inside", "outside")
+            continue
+        todo.append((cx, seq, src))
+    res = _compile_many([s for _, _, s in todo])
+    skeletons = []
+    for (cx, seq, src), (r, c) in zip(todo, res):
+        dist["pairs:context:" + cx] += 1
+        dist["pairs:statements in one block"] += len(seq)
+        for lab, _ in seq:
+            dist["pairs:shape:" + lab.split(" ")[0]] += 1
+        if not r["ok"]:
+            # a single catalog statement the transpiler rejects would hide the rest of the sequence: never silently
+            ctx.disagree("catalog sequence rejected by the transpiler (every catalog statement is documented style)", {"context": cx, "exc": r["exc"], "msg": r.get("msg", "")[:300]}, "accepted", "rejected")
+            continue
+        n_eval += len(seq) * (len(seq) - 1) // 2
+        skeletons.append((cx, src, r, c))
+        if c["compiled"]:
+            continue
+        key0 = err_key(c["compile_log"])
+
+        def fails(cands, cx=cx, key0=key0):
+            out = _compile_many([PR.wrap(cx, [l for _, l in cand]) for cand in cands])
+            return [bool(r2["ok"] and c2 is not None and not c2["compiled"] and err_key(c2["compile_log"]) == key0) for r2, c2 in out]
+
+        small = PR.ddmin(list(seq), fails)
+        msrc = PR.wrap(cx, [l for _, l in small])
+        (r2, c2), = _compile_many([msrc])
+        errs = re.findall(r"error: .*", (c2 or c)["compile_log"])[:4]
+        ctx.fail("statements of the documented style that compile one by one do not compile when they stand in the same block",
+                 {"script": msrc, "context": cx, "statements": [lab for lab, _ in small], "errors": errs},
+                 "g++ -std=gnu++17 compiles and links", "g++ error", key="same-block:" + key0)
+    if todo:
+        samples.append({"same-block sequence": [lab for lab, _ in todo[0][1]][:12], "context": todo[0][0]})
+    return n_eval, skeletons
+
+
+# ------------------------------------------------------------------ I. one declaration per scope: Lang/EmitScope.v vs the real text vs g++
+def check_scopes(ctx, batch, dist, consts):
+    """batch: [(script, transpile result, g++ result or None)].
+    (a) property oracle on the real text: in no function of the sketch is a name declared twice in one C++ scope
+        (blocks read back by harness/c06_scope.py, the rule decided by the extracted Lang.EmitScope.scan);
+    (b) that verdict against g++ ('redeclaration of' / 'conflicting declaration' / 'redefinition of' inside a function);
+    (c) the emitter model: emit_program on the real IR must give, for setup, loop and every user function, exactly the block
+        structure and declared names read from the real text (declaration-free blocks pruned on both sides)."""
+    if not ctx.exe:
+        return 0
+    n_eval = 0
+    cases, meta = [], []
+    for src, r, comp in batch:
+        try:
+            items = S.read_sketch(r["cpp"], consts, r["functions"])
+            fns = []
+            for it in items:
+                if it["kind"] in ("setup", "loop", "function", "ultra"):
+                    params, toks = CS.read_function(it["ctext"])
+                    fns.append((it["kind"], it["name"], params, toks))
+        except (S.SplitError, CS.ScopeReadError) as e:
+            if comp is None or comp["compiled"]:
+                ctx.disagree(f"emitted text cannot be read back into blocks and declarations: {e}", {"script": src}, "readable", str(e))
+            continue
+        for kind, name, params, toks in fns:
+            cases.append([8, params, CS.wire(toks)])
+            meta.append(("text", src, r, comp, kind, name, toks))
+        ir = r.get("ir") or {}
+        if "error" in ir or not ir:
+            ctx.disagree("the IR contains a node kind the emitter model does not know", {"script": src}, "known node kinds", ir.get("error"))
+            continue
+        cases.append([9, ir["lcds"], ir["buttons"], ir["setup"], ir["loop"], [[ps, ns] for _, ps, ns in ir["fns"]]])
+        meta.append(("ir", src, r, comp, fns, ir, None))
+    outs = ctx.model(cases) if cases else []
+    bad_by_src = {}
+    for m, o in zip(meta, outs):
+        if o[0] != 0:
+            ctx.disagree("model could not decode the scope case", {"script": m[1]}, o, None)
+            continue
+        if m[0] == "text":
+            _, src, r, comp, kind, name, toks = m
+            n_eval += 1
+            dist["scopes:function bodies read"] += 1
+            dist["scopes:declarations read"] += sum(1 for t in toks if t[0] == "decl")
+            if o[1] != 1:
+                bad_by_src.setdefault(src, []).append((name, C.wstr(o[2])))
+        else:
+            _, src, r, comp, fns, ir, _ = m
+            real = {(k, nm): (ps, CS.prune(tk)) for k, nm, ps, tk in fns}
+            bodies = [("setup", "setup", o[1]), ("loop", "loop", o[2])] + [("function", nm, b) for (nm, _, _), b in zip(ir["fns"], o[3])]
+            for kind, name, b in bodies:
+                n_eval += 1
+                mt = CS.prune(CS.unwire(b[0], C.wstr))
+                rp = real.get((kind, name))
+                if rp is None:
+                    ctx.disagree("a function of the IR is missing in the emitted text", {"script": src, "function": name}, name, None)
+                    continue
+                dist["scopes:model vs text bodies"] += 1
+                if mt != rp[1]:
+                    k = next((i for i, (a, b2) in enumerate(zip(mt, rp[1])) if a != b2), min(len(mt), len(rp[1])))
+                    ctx.disagree("blocks and declarations of a function body: emitter model (Lang/EmitScope.v on the real IR) vs the emitted text",
+                                 {"script": src, "function": name, "first difference at token": k},
+                                 [list(t) for t in mt[max(0, k - 3):k + 4]], [list(t) for t in rp[1][max(0, k - 3):k + 4]])
+                if b[2] == 1 and b[1] != 1:
+                    ctx.disagree("extracted model contradicts theorem C06_emit_no_redeclaration_partial (extraction or wire bug)", {"script": src, "function": name}, 1, b[1])
+                if b[2] != 1:
+                    dist["scopes:user declarations of a body not redeclaration-free (outside the theorem's guard)"] += 1
+    # (b) the verdict against g++
+    for src, r, comp in batch:
+        if comp is None:
+            continue
+        n_eval += 1
+        gpp = bool(re.search(r"error: (redeclaration of|conflicting declaration|redefinition of ‘[^’(]*’$)", comp["compile_log"], re.M))
+        mine = src in bad_by_src
+        if mine and not comp["compiled"]:
+            name, dup = bad_by_src[src][0]
+            ctx.fail("the emitted sketch declares a name twice in one C++ scope",
+                     {"script": src, "function": name, "name": dup, "errors": re.findall(r"error: .*", comp["compile_log"])[:3]},
+                     "every identifier declared once per scope", f"{dup} declared twice in {name}()",
+                     key="redeclared-in-scope:" + re.sub(r"_\d+$", "_<k>", dup))
+        if mine and comp["compiled"]:
+            ctx.disagree("scope model finds a name declared twice in one scope, g++ accepts the sketch", {"script": src, "redeclared": bad_by_src[src]}, "g++ error", "compiles")
+        if gpp and not mine:
+            ctx.disagree("g++ reports a redeclaration inside a function that the scope model does not see", {"script": src, "errors": re.findall(r"error: .*", comp["compile_log"])[:3]}, "redeclaration", "well scoped")
+    return n_eval
 
 
 # ------------------------------------------------------------------ F. user variables: the scoping model vs g++
@@ -817,13 +973,24 @@ def replay_finding(ctx, f, consts, dist):
 
 
 def run(ctx: C.Ctx):
+    import time
     dist = Counter()
     samples = []
-    n1, nt1, strings = part_escape(ctx, dist, samples)
-    n2 = part_lexer(ctx, dist)
-    n3 = part_literals(ctx, dist, strings)
-    n4, nt4, consts = part_scripts(ctx, dist, samples)
-    n5 = part_scope(ctx, dist)
+    timing = {}
+    t0 = time.time()
+
+    def lap(name):
+        nonlocal t0
+        timing[name] = round(time.time() - t0, 1)
+        t0 = time.time()
+
+    n1, nt1, strings = part_escape(ctx, dist, samples); lap("A escape")
+    n2 = part_lexer(ctx, dist); lap("B lexer")
+    n3 = part_literals(ctx, dist, strings); lap("C literals")
+    n4, nt4, consts = part_scripts(ctx, dist, samples); lap("D scripts (+G headers/functions, I scopes)")
+    n5 = part_scope(ctx, dist); lap("F user-variable scoping")
+    n6, pair_batch = part_pairs(ctx, dist, samples); lap("H same-block sequences")
+    n6 += check_scopes(ctx, [(src, r, c) for _, src, r, c in pair_batch], dist, consts); lap("I scopes of the sequences")
 
     for f in local_findings(ctx):
         if f.get("kind") == "fixed":
@@ -836,7 +1003,7 @@ def run(ctx: C.Ctx):
             ctx.disagree("listed finding's witness is inside the executable guard", {"script": w}, "outside", "inside")
 
     ctx.coverage.update({
-        "evaluations": n1 + n2 + n3 + n4 + n5,
+        "evaluations": n1 + n2 + n3 + n4 + n5 + n6,
         "distinct_nontrivial": nt1 + nt4,
         "rule": "A: escape on special strings + all 1/2-character strings over a 12-symbol boundary alphabet + all 3-character strings over 5 symbols + seeded printable strings (ASCII incl. quote/backslash/?, Unicode) + strings with control characters (model vs _escape_string_literal; the real output lexed by the model lexer; the three escape call sites of _to_c_expr). "
                 "B: C++ literal bodies built from plain characters, simple/octal/hex escapes, trigraph-like sequences, line splices, non-ASCII: model lexer vs the bytes g++ stores. "
@@ -845,6 +1012,7 @@ def run(ctx: C.Ctx):
                 "F: statement-fragment programs (harness/progen.py feature sets + 34 scoping boundary templates: all-new / mixed / all-old tuple assignments at every level, names first bound in branches and loops, for variables re-bound after the loop) through the extracted Lang.Transl + Lang.Scope and through the real transpiler + g++: the theorem's conclusion is re-checked on the extracted model, and a target the model finds invisible must make g++ fail with 'not declared'. "
                 "distinct non-trivial = strings that need escaping + distinct (section-kind multiset, helper set) signatures of compiled scripts",
         "samples": samples[:4],
+        "timing_s": timing,
         "distribution": {k: v for k, v in sorted(dist.items(), key=lambda kv: str(kv[0]))},
         "guard": "strings: str.isprintable() (theorem guard: no LF/CR). scripts: c06_gen.shapes_of(script) is empty - no user function that calls measure_distance() or lcd.animate(), no call of a function defined later, no '**', no 'except <Name>', no '+' of two string literals, no C++ keyword / Arduino core name as a Python identifier, no top-level tuple assignment mixing new and old names, no for variable mentioned after its loop, no for over anything but range(...), no un-annotated parameter re-bound to a string-valued expression, no string / float literal passed to an un-annotated parameter outside an assignment or return value, no function above an RGBLed whose on/off/blink/toggle it calls; plus generator invariants: type-correct Python, one type class per variable name, list.append/remove arguments of the element type, a helper with two real overloads has one numeric and one String overload and is called only as the right-hand side of an assignment, a helper whose un-annotated parameter is used as a list is called once in an assignment. Function theorem C06_fn_no_redefinition_partial: all labels in _cpp_type's table. Scoping theorem: setup() has no top-level local declaration (for loop()), targets of augmented assignments not checked",
         "unmodelled": ["the C++ type checker (template deduction in the list helpers, String overloads, implicit conversions): decided by g++ only",
